@@ -132,7 +132,7 @@ class Bits:
       if idx.step:
         raise IndexError( "Index cannot contain step" )
       try:
-        start, stop = int(idx.start or 0), int(idx.stop or self._nbits)
+        start, stop = int(idx.start or 0), int(self._nbits if idx.stop is None else idx.stop)
         assert 0 <= start < stop <= self._nbits
       except:
         raise IndexError( f"Invalid access: [{idx.start}:{idx.stop}] in a Bits{self._nbits} instance" )
@@ -155,7 +155,7 @@ class Bits:
       if idx.step:
         raise IndexError( "Index cannot contain step" )
       try:
-        start, stop = int(idx.start or 0), int(idx.stop or self._nbits)
+        start, stop = int(idx.start or 0), int(self._nbits if idx.stop is None else idx.stop)
         assert 0 <= start < stop <= self._nbits
       except:
         raise IndexError( f"Invalid access: [{idx.start}:{idx.stop}] in a Bits{self._nbits} instance" )
